@@ -136,6 +136,8 @@ func (s *Sim) BuildWorld() {
 		s.Vals = append(s.Vals, acc)
 		s.txCreateValidator(acc, bigBalance/2)
 	}
+	// genesis default (the Tester does not run InitGenesis): min iprpc cost is a zero coin, never a nil one
+	ts.Keepers.Rewards.SetMinIprpcCost(ts.Ctx, s.coin(0))
 	if !p.KeepPools {
 		for _, pool := range []string{string(rewardstypes.ValidatorsRewardsAllocationPoolName), string(rewardstypes.ProvidersRewardsAllocationPool)} {
 			_ = ts.Keepers.BankKeeper.SetBalance(ts.Ctx, testkeeper.GetModuleAddress(pool), sdk.NewCoins(s.coin(0)))
